@@ -521,6 +521,8 @@ def run_case(m, pool=None):
         return run_seq(m)
     if m['op'] == 'hist':
         return run_hist(m)
+    if m['op'] == 'share':
+        return run_share(m)
     A = Args(m, {} if pool is None else pool)
     c = _run_case(m, A)
     if c is not None:
@@ -883,6 +885,8 @@ def check_case(c):
         return check_seq(c)
     if m['op'] == 'hist':
         return check_hist(c)
+    if m['op'] == 'share':
+        return check_share(c)
     mut = m.get('mutated') or []
     if mut:
         sym = 'container-mutated' if 'obj' in mut else 'argument-mutated'
@@ -1229,6 +1233,92 @@ def uchange_tok(ch):
 
 CONT_KEYS = ('t', 'vals', 'axis', 'data')
 
+SIDE_MAKERS = {
+    'tarray': ['copy', 'wrap', 'wrap-unit', 'arith', 'arith-time', 'events-time', 'epochs-start', 'epochs-stop', 'deepcopy', 'fancy', 'astype',
+               'asarray-copy', 'self-sub', 'min', 'max', 'list-wrap'],
+    'events': ['events-of-time', 'time-copy', 'getitem-all', 'wrap', 'arith', 'deepcopy'],
+    'uaxis': ['copy', 'rebuild', 'rebuild-unit', 'arith', 'arith-r', 'mul', 'series-time', 'series-time-2', 'series-copy-time', 'series-arith-time',
+              'deepcopy', 'self-add', 'wrap'],
+    'series': ['copy-time', 'copy-copy-time', 'arith-time', 'arith-sub-time', 'mul-time', 'during-time', 'getitem-ep-time', 'from-time', 'from-time-unit',
+               'time-copy', 'rebuild', 'deepcopy-time', 'sibling-time', 'time-arith'],
+}
+SIDE_OPS_T = ['iadd', 'iadd-time', 'isub', 'setitem', 'sort', 'neg', 'fill', 'imul']
+SIDE_OPS_U = ['iadd', 'iadd-time', 'isub', 'isub-own', 'imul', 'ramp', 'bad-ramp', 'imul0']
+
+
+def do_side(obj, kind, sd, unit):
+    """make an object from the container `obj` by the maker `sd['make']`, then change THAT object in place (`sd['op']`).  Returns a
+    note for the record; exceptions are part of the game (some operators are refused)"""
+    t = ts()
+    T, U, S = t.TimeArray, t.UniformTime, t.TimeSeries
+    mk, op, k = sd['make'], sd['op'], sd.get('k', 3)
+    import copy as _c
+    try:
+        if kind == 'tarray':
+            n = len(obj)
+            d = {'copy': lambda: obj.copy(), 'wrap': lambda: T(obj), 'wrap-unit': lambda: T(obj, time_unit=sd.get('unit', 'ms')),
+                 'arith': lambda: obj + 0, 'arith-time': lambda: obj - T(0, time_unit='ps'), 'events-time': lambda: t.Events(obj).time,
+                 'epochs-start': lambda: t.Epochs(start=obj[:max(1, n // 2)], duration=T(1, time_unit='ps')).start,
+                 'epochs-stop': lambda: t.Epochs(start=obj[:max(1, n // 2)] - 1, stop=obj[:max(1, n // 2)]).stop,
+                 'deepcopy': lambda: _c.deepcopy(obj), 'fancy': lambda: obj[list(range(n))], 'astype': lambda: obj.astype(np.int64),
+                 'asarray-copy': lambda: np.array(obj), 'self-sub': lambda: obj - obj, 'min': lambda: obj.min(), 'max': lambda: obj.max(),
+                 'list-wrap': lambda: T([obj[i] for i in range(n)])}[mk]()
+        elif kind == 'events':
+            d = {'events-of-time': lambda: t.Events(obj.time).time, 'time-copy': lambda: obj.time.copy(), 'getitem-all': lambda: obj[list(range(len(obj)))].time
+                 if False else t.Events(obj.time, **{kk: vv for kk, vv in obj.data.items()}).time,
+                 'wrap': lambda: T(obj.time), 'arith': lambda: obj.time + 0, 'deepcopy': lambda: _c.deepcopy(obj).time}[mk]()
+        elif kind == 'uaxis':
+            n = len(obj)
+            zeros = np.zeros(n)
+            d = {'copy': lambda: obj.copy(), 'rebuild': lambda: U(obj), 'rebuild-unit': lambda: U(obj, time_unit=sd.get('unit', 'ms')),
+                 'arith': lambda: obj + 0, 'arith-r': lambda: 0 + obj, 'mul': lambda: obj * 1,
+                 'series-time': lambda: S(zeros, time=obj, time_unit=obj.time_unit).time,
+                 'series-time-2': lambda: (S(zeros, time=obj, time_unit=obj.time_unit), S(zeros + 1, time=obj, time_unit=obj.time_unit))[1].time,
+                 'series-copy-time': lambda: S(zeros, time=obj, time_unit=obj.time_unit).copy().time,
+                 'series-arith-time': lambda: (S(zeros, time=obj, time_unit=obj.time_unit) + 1).time,
+                 'deepcopy': lambda: _c.deepcopy(obj), 't0': lambda: obj.t0, 'interval': lambda: obj.sampling_interval,
+                 'self-add': lambda: obj + obj, 'wrap': lambda: T(obj)}[mk]()
+        else:
+            n = obj.data.shape[-1]
+            tt = obj.time
+            whole = t.Epochs(start=T(int(min(tt[0], tt[-1])), time_unit='ps'), stop=T(int(max(tt[0], tt[-1])) + 1, time_unit='ps'))
+            d = {'copy-time': lambda: obj.copy().time, 'copy-copy-time': lambda: obj.copy().copy().time, 'arith-time': lambda: (obj + 1).time,
+                 'arith-sub-time': lambda: (obj - 1.5).time, 'mul-time': lambda: (obj * 2).time, 'during-time': lambda: obj.during(whole).time,
+                 'getitem-ep-time': lambda: obj[whole].time, 'from-time': lambda: S(obj.data, time=obj.time).time,
+                 'from-time-unit': lambda: S(obj.data, time=obj.time, time_unit=obj.time_unit).time, 'time-copy': lambda: obj.time.copy(),
+                 'rebuild': lambda: U(obj.time), 'deepcopy-time': lambda: _c.deepcopy(obj).time,
+                 'sibling-time': lambda: S(obj.data + 1, time=obj.time, time_unit=obj.time_unit).time, 't0': lambda: obj.t0,
+                 'interval': lambda: obj.sampling_interval, 'time-arith': lambda: obj.time + 0}[mk]()
+    except Exception as e:  # noqa
+        return 'maker raised ' + type(e).__name__
+    try:
+        f = FACTOR[unit]
+        if isinstance(d, U) and np.asarray(d).ndim == 1:
+            nn = len(d)
+            {'iadd': lambda: d.__iadd__(k), 'iadd-time': lambda: d.__iadd__(T(k * 1000 + 1, time_unit='ps')), 'isub': lambda: d.__isub__(k),
+             'isub-own': lambda: d.__isub__(d[nn // 2]), 'imul': lambda: d.__imul__(2 if abs(int(d[0])) + abs(int(d[-1])) < 2**59 else -1),
+             'ramp': lambda: d.__iadd__(T(np.arange(nn, dtype=np.int64) * max(1, abs(int(d.sampling_interval))), time_unit='ps')),
+             'bad-ramp': lambda: d.__iadd__(T(np.arange(nn + 2, dtype=np.int64), time_unit='ps')), 'imul0': lambda: d.__imul__(0)}[
+                 op if op in SIDE_OPS_U else SIDE_OPS_U[SIDE_OPS_T.index(op) % len(SIDE_OPS_U)]]()
+        elif isinstance(d, np.ndarray):
+            o2 = op if op in SIDE_OPS_T else SIDE_OPS_T[SIDE_OPS_U.index(op) % len(SIDE_OPS_T)]
+            if d.ndim == 0 and o2 in ('setitem', 'sort'):
+                o2 = 'fill'
+            {'iadd': lambda: np.ndarray.__iadd__(d, k * 1000 + 1), 'iadd-time': lambda: d.__iadd__(T(k * 1000 + 1, time_unit='ps')),
+             'isub': lambda: d.__isub__(T(7, time_unit='ps')), 'setitem': lambda: d.__setitem__(0, T(int(np.asarray(d).reshape(-1)[0]) + 11, time_unit='ps')),
+             'sort': lambda: (np.ndarray.__imul__(d, -1), d.sort()), 'neg': lambda: np.negative(d, out=d), 'fill': lambda: np.asarray(d).fill(5),
+             'imul': lambda: np.ndarray.__imul__(d, 3 if np.abs(np.asarray(d)).max(initial=0) < 2**59 else 1)}[o2]()
+        else:
+            return 'not an array: ' + type(d).__name__
+    except Exception as e:  # noqa
+        return 'op raised ' + type(e).__name__
+    return 'done'
+
+
+def gen_side(rng, kind):
+    mk = rng.choice(SIDE_MAKERS[kind])
+    return {'make': mk, 'op': rng.choice(SIDE_OPS_U + SIDE_OPS_T), 'k': rng.choice([1, 2, 3, 5, -4]), 'unit': rng.choice(UNITS)}
+
 
 def run_hist(m):
     """one container object through lookups, in-place changes and lookups again.  m['steps'] holds `{'look': …}` (a lookup
@@ -1290,6 +1380,13 @@ def run_hist(m):
         return 'U:%s:%d:%d:%d:%d' % (a.time_unit, int(a.t0), int(a.sampling_interval), len(a), int(a.duration))
     toks, impls, trace, nt = [], [], [], True
     for st in m['steps']:
+        if 'side' in st:
+            # class L8: an object DERIVED from the container (or handed to two owners) is changed in place; nothing of this is on the
+            # model line — the container's contents are what they were
+            before = snap(box['obj'])
+            note = do_side(box['obj'], kind, st['side'], unit)
+            trace.append({'side': st['side'], 'note': note, 'container_changed': differs(before, snap(box['obj']))})
+            continue
         if 'look' in st:
             sm = dict(cur, **st['look'])
             sm.update(kind=kind, share=dict(st['look'].get('share') or {}, obj='X'))
@@ -1351,6 +1448,13 @@ def check_hist(c):
     cname = c.clause.split('/', 1)[1]
     changed, stale = False, None
     for i, tr in enumerate(m.get('_trace') or []):
+        if 'side' in tr:
+            if tr['container_changed']:
+                return Failure('%s/aliasing/%s/container-changed-by-operation-on-derived-object' % (cname, tr['side']['make']),
+                               'step %d of a history: an object made from the %s (%s) was changed in place (%s: %s) and the %s itself changed  [op: %s]'
+                               % (i + 1, cname, tr['side']['make'], tr['side']['op'], tr['note'], cname, c.line[:300]), {'meta': m}, case=c)
+            changed = True      # (for the wording / classification of a lookup that goes wrong afterwards)
+            continue
         if 'chg' in tr:
             ch = tr['chg']
             derived = ch['route'].startswith('derived')
@@ -1393,6 +1497,334 @@ def check_hist(c):
                            % (i + 1, cname, after, sm['_impl'][:160], tr['fresh'][:160], sm['_line'][:240]), {'meta': m}, case=c)
     return stale
 
+
+
+# ------------------------------------------------------------------ class L8: programs over several live objects that may share parts
+def _sh_times(ax):
+    return [ax['t0'] + i * ax['dt'] for i in range(ax['n'])]
+
+
+def _sh_data_map(d, f):
+    return {'shape': list(d['shape']), 'vals': [f(v) for v in d['vals']]}
+
+
+def _sh_data_sel(d, idx):
+    n = d['shape'][-1]
+    rows = int(np.prod(d['shape'][:-1])) if len(d['shape']) > 1 else 1
+    vals = [d['vals'][r * n + i] for r in range(rows) for i in idx]
+    return {'shape': list(d['shape'][:-1]) + [len(idx)], 'vals': vals}
+
+
+class ShadowStore:
+    """the property's own account of the objects of a program (plain integers; no model): an in-place operator changes the axis
+    object it is applied to and nothing else; every constructor, copy, arithmetic result and `.time` read makes / hands out an
+    object of its own"""
+
+    def __init__(self, ax):
+        self.axes, self.series = [dict(ax)], []
+
+    def time_id(self, sid):
+        s = self.series[sid]
+        if s['time'] is None:
+            self.axes.append(dict(s['own']))
+            s['time'] = len(self.axes) - 1
+            return s['time'], True
+        return s['time'], False
+
+    def axis_of(self, sid):
+        s = self.series[sid]
+        return s['own'] if s['time'] is None else self.axes[s['time']]
+
+
+def _own_of(ax):
+    return {k: v for k, v in ax.items() if k != 'how'} | {'ctor': 'length'}
+
+
+def gen_share(rng):
+    """a program: series built on one caller axis, copies / arithmetic / during results / sibling series, reads of `.time`, in-place
+    operators on every axis object and on the `.time` of every series, lookups on everything — generated against the shadow"""
+    for _ in range(50):
+        ax = gen_axis(rng, 14)
+        if ax['ctor'] == 'length':
+            break
+    sh = ShadowStore(ax)
+    cmds = []
+
+    def add_series(axid):
+        a = sh.axes[axid]
+        d = gen_data(rng, a['n'])
+        sh.series.append({'data': d, 'own': _own_of(a), 'time': None})
+        cmds.append({'c': 'N', 'ax': axid, 'data': d})
+
+    def look(sid):
+        if sh.axis_of(sid)['n'] < 1:
+            return
+        cont = {'axis': sh.axis_of(sid), 'data': sh.series[sid]['data']}
+        cmds.append({'c': 'L', 'sid': sid, 'look': gen_hlook(rng, 'series', cont)})
+    add_series(0)
+    if rng.random() < 0.4:
+        add_series(0)
+    if rng.random() < 0.6:
+        sh.time_id(0)
+        cmds.append({'c': 'T', 'sid': 0})
+    for _ in range(rng.randint(0, 2)):
+        look(0)
+    for _ in range(rng.randint(3, 9)):
+        r = rng.random()
+        sid = rng.randrange(len(sh.series))
+        if r < 0.14:
+            sh.time_id(sid)
+            a = sh.axis_of(sid)
+            sh.series.append({'data': sh.series[sid]['data'], 'own': _own_of(a), 'time': None})
+            cmds.append({'c': 'Y', 'sid': sid})
+        elif r < 0.26:
+            k = rng.randint(-9, 9)
+            sh.time_id(sid)
+            a = sh.axis_of(sid)
+            sh.series.append({'data': _sh_data_map(sh.series[sid]['data'], lambda v: v + k), 'own': _own_of(a), 'time': None})
+            cmds.append({'c': 'A', 'sid': sid, 'k': k, 'how': rng.choice(['add', 'sub', 'radd'])})
+        elif r < 0.34:
+            a = sh.axis_of(sid)
+            if a['dt'] <= 0 or a['n'] < 2:
+                continue
+            e = gen_uepoch(rng, a)
+            ea = epoch_actual(e)
+            if ea[0] != 'ok' or not ea[3]:
+                continue
+            idx = [i for i, t in enumerate(_sh_times(a)) if ea[1][0] <= t < ea[2][0]]
+            if not idx or abs(ea[4]) + (len(idx) + 1) * a['dt'] >= LIM // 8:
+                continue
+            sh.time_id(sid)
+            own = dict(_own_of(a), t0=ea[4], n=len(idx), dt=sh.series[sid]['own']['dt'])     # (`sampling_rate=self.sampling_rate`: the series' OWN attribute)
+            sh.series.append({'data': _sh_data_sel(sh.series[sid]['data'], idx), 'own': own, 'time': None})
+            cmds.append({'c': 'D', 'sid': sid, 'e': e})
+        elif r < 0.42:
+            axid = rng.randrange(len(sh.axes))
+            sh.axes.append(dict(sh.axes[axid]))
+            cmds.append({'c': 'X', 'id': axid, 'how': rng.choice(['copy', 'rebuild'])})
+        elif r < 0.5:
+            sh.time_id(sid)
+            cmds.append({'c': 'T', 'sid': sid})
+        elif r < 0.56:
+            add_series(rng.randrange(len(sh.axes)))
+        elif r < 0.74:
+            axid = rng.randrange(len(sh.axes))
+            ch = gen_uchange(rng, sh.axes[axid], 'uaxis', derived=False)
+            res = expect_uchange(sh.axes[axid], ch)
+            if res[0] == 'ok':
+                sh.axes[axid] = res[1]
+            cmds.append({'c': 'IA', 'id': axid, 'ch': ch})
+        elif r < 0.9:
+            pid, _ = sh.time_id(sid)
+            ch = gen_uchange(rng, sh.axes[pid], 'series', derived=False)
+            res = expect_uchange(sh.axes[pid], ch)
+            if res[0] == 'ok':
+                sh.axes[pid] = res[1]
+            cmds.append({'c': 'IT', 'sid': sid, 'ch': ch})
+        else:
+            look(sid)
+        if rng.random() < 0.35:
+            look(rng.choice([0, 0, rng.randrange(len(sh.series))]))
+    for sid in sorted({0, len(sh.series) - 1, rng.randrange(len(sh.series))}):
+        for _ in range(rng.randint(1, 2)):
+            sh.time_id(sid) if False else None
+            look(sid)
+    return {'op': 'share', 'kind': 'share', 'axis': ax, 'cmds': cmds}
+
+
+def _u_tok(a):
+    t = ts()
+    if not isinstance(a, t.UniformTime):
+        return 'not-a-uniform-axis:%s' % type(a).__name__
+    return 'U:%s:%d:%d:%d:%d' % (a.time_unit, int(a.t0), int(a.sampling_interval), len(a), int(a.duration))
+
+
+def run_share(m):
+    import operator
+    t = ts()
+    ax = m['axis']
+    a0 = build_axis(ax)
+    if a0 is None:
+        return None
+    sh = ShadowStore(ax)
+    axes, series = [a0], []
+    toks, outs, trace = [], [], []
+    iops = {'uadd': operator.iadd, 'usub': operator.isub, 'umul': operator.imul, 'udiv': operator.itruediv}
+
+    def read_time(sid):
+        """the axis object `series[sid].time` hands out, registered at the position the intended allocation gives it"""
+        pid, first = sh.time_id(sid)
+        o = series[sid].time
+        if first:
+            axes.append(o)
+        return pid, o
+
+    def new_series(obj, data, own):
+        series.append(obj)
+        sh.series.append({'data': data, 'own': own, 'time': None})
+    for cm in m['cmds']:
+        c = cm['c']
+        rec = {'cmd': cm}
+        if c == 'N':
+            d, a = cm['data'], sh.axes[cm['ax']]
+            toks.append('N %d %s' % (cm['ax'], data_tok(d)))
+            out = call(lambda: (new_series(t.TimeSeries(np.array(d['vals'], dtype=np.int64).reshape(d['shape']), time=axes[cm['ax']],
+                                                         time_unit=axes[cm['ax']].time_unit), d, _own_of(a)), 'ok')[1])
+        elif c == 'T':
+            toks.append('T %d' % cm['sid'])
+            out = call(lambda: 'ok ' + _u_tok(read_time(cm['sid'])[1]))
+            rec['want'] = 'ok U:%s:%d:%d:%d:%d' % ((lambda a: (a['unit'], a['t0'], a['dt'], a['n'], a['n'] * a['dt']))(sh.axis_of(cm['sid'])))
+        elif c in ('Y', 'A'):
+            sid = cm['sid']
+            k = cm.get('k', 0)
+            toks.append('Y %d' % sid if c == 'Y' else 'A %d %d' % (sid, k))
+
+            def f():
+                read_time(sid)
+                src = series[sid]
+                if c == 'Y':
+                    new = src.copy()
+                else:
+                    new = {'add': lambda: src + k, 'sub': lambda: src - (-k), 'radd': lambda: src + np.int64(k)}[cm['how']]()
+                new_series(new, _sh_data_map(sh.series[sid]['data'], lambda v: v + k), _own_of(sh.axis_of(sid)))
+                return 'ok'
+            out = call(f)
+        elif c == 'D':
+            sid, e = cm['sid'], cm['e']
+            toks.append('D %d %s' % (sid, epoch_toks(e)))
+
+            def f():
+                read_time(sid)
+                a = sh.axis_of(sid)
+                ea = epoch_actual(e)
+                idx = [i for i, tt in enumerate(_sh_times(a)) if ea[1][0] <= tt < ea[2][0]]
+                new = series[sid].during(build_epoch(e))
+                new_series(new, _sh_data_sel(sh.series[sid]['data'], idx), dict(_own_of(a), t0=ea[4], n=len(idx), dt=sh.series[sid]['own']['dt']))
+                return 'ok'
+            out = call(f)
+        elif c == 'X':
+            toks.append('X %d' % cm['id'])
+
+            def f():
+                o = axes[cm['id']].copy() if cm['how'] == 'copy' else t.UniformTime(axes[cm['id']])
+                axes.append(o)
+                sh.axes.append(dict(sh.axes[cm['id']]))
+                return 'ok'
+            out = call(f)
+        elif c in ('IA', 'IT'):
+            ch = cm['ch']
+            if c == 'IA':
+                pid = cm['id']
+                toks.append('IA %d %s' % (pid, uchange_tok(ch).split(' ', 2)[2]))
+                unit = sh.axes[pid]['unit']
+            else:
+                sid = cm['sid']
+                toks.append('IT %d %s' % (sid, uchange_tok(ch).split(' ', 1)[1]))
+                unit = sh.axis_of(sid)['unit']
+
+            def f():
+                if c == 'IA':
+                    tgt, p = axes[pid], pid
+                    iops[ch['c']](tgt, uchange_operand(ch, unit))
+                else:
+                    p, tgt = read_time(sid)
+                    x = uchange_operand(ch, unit)
+                    if ch['route'] == 'attr':
+                        series[sid].time = iops[ch['c']](series[sid].time, x)
+                    else:
+                        iops[ch['c']](tgt, x)
+                return 'ok ' + _u_tok(tgt)
+            if c == 'IT':
+                p_now, _ = sh.time_id(sid) if sh.series[sid]['time'] is not None else (None, None)
+            tid = pid if c == 'IA' else None
+            out = call(f)
+            tid = pid if c == 'IA' else sh.series[cm['sid']]['time']
+            if tid is not None:
+                res = expect_uchange(sh.axes[tid], ch)
+                if res[0] == 'ok':
+                    sh.axes[tid] = res[1]
+                    rec['want'] = 'ok U:%s:%d:%d:%d:%d' % (res[1]['unit'], res[1]['t0'], res[1]['dt'], res[1]['n'], res[1]['n'] * res[1]['dt'])
+                else:
+                    rec['want'] = 'err ' + res[1]
+        elif c == 'L':
+            sid = cm['sid']
+            cont = {'axis': dict(sh.axis_of(sid)), 'data': sh.series[sid]['data']}
+            sm = dict(cont, **cm['look'])
+            sm.update(kind='series', share={'obj': 'S%d' % sid})
+            pool = {'S%d' % sid: series[sid]} if sid < len(series) else {}
+            if sid >= len(series):
+                out = 'err IndexError'
+            else:
+                cc = run_case(sm, pool)
+                if cc is None:
+                    return None
+                sh.time_id(sid)
+                if len(axes) < len(sh.axes):
+                    axes.append(series[sid].time)
+                sm['_impl'], sm['_line'], sm['_clause'] = cc.impl, cc.line, cc.clause
+                lt = cc.line.split(' ')[1:]
+                toks.append('L %d ' % sid + ' '.join([lt[0]] + lt[4:]))
+                out = cc.impl
+                fresh = run_case(clean_step(sm))
+                rec.update(look=sm, fresh=None if fresh is None else fresh.impl)
+        else:
+            raise ValueError(c)
+        if out.startswith('err') and c != 'L':
+            out = 'err ' + out.split(' ')[1]
+        rec['impl'] = out
+        outs.append(out)
+        trace.append(rec)
+    # identities: which axis object every series holds (position of the first registered object that IS it)
+    ids = []
+    for i, so in enumerate(series):
+        o = so.__dict__.get('time')
+        ids.append('-' if o is None else str(next((j for j, a in enumerate(axes) if a is o), 'x')))
+    outs.append('ids ' + (','.join(ids) if ids else '-'))
+    m['_trace'] = trace
+    m['_ids'] = ids
+    m['_want_ids'] = ['-' if s_['time'] is None else str(s_['time']) for s_ in sh.series]
+    return Case('C03 share %s | %s' % (axis_tok(ax, a0), ' | '.join(toks)), ' ; '.join(outs), 'share/series', meta=m,
+                nontrivial=ax['n'] >= 2)
+
+
+def check_share(c):
+    m = c.meta
+    later = False
+    for i, tr in enumerate(m.get('_trace') or []):
+        cm = tr['cmd']
+        k = cm['c']
+        if k in ('IA', 'IT', 'T'):
+            if 'want' in tr and tr['impl'] != tr['want']:
+                return Failure('share/%s/%s' % ({'IA': 'inplace-axis', 'IT': 'inplace-series-time', 'T': 'series-time'}[k],
+                                                'axis-wrong' if k == 'T' else cm['ch']['c'] + '/contents-wrong'),
+                               'command %d of a program over several live objects: %s gives %s, want %s  [op: %s]'
+                               % (i + 1, cm, tr['impl'][:160], tr['want'][:160], c.line[:300]), {'meta': m}, case=c)
+            later = later or k != 'T'
+            continue
+        if k in ('N', 'Y', 'A', 'D', 'X'):
+            if tr['impl'] != 'ok':
+                return Failure('share/construct/%s/raises' % k, 'command %d of a program over several live objects: %s raised: %s  [op: %s]'
+                               % (i + 1, cm, tr['impl'][:160], c.line[:300]), {'meta': m}, case=c)
+            continue
+        if k == 'L' and 'look' in tr:
+            sm = tr['look']
+            f = check_case(Case(sm['_line'], sm['_impl'], sm['_clause'], meta=sm))
+            if f is not None:
+                key = f.key
+                if not key.endswith('-mutated') and tr['fresh'] is not None and tr['fresh'] != sm['_impl']:
+                    fr = run_case(clean_step(sm))
+                    if fr is not None and check_case(fr) is None:
+                        key = '%s/aliasing/answer-changed-by-operation-on-another-object' % sm['_clause']
+                return Failure(key, 'command %d of a program over several live objects (series %d): %s' % (i + 1, cm['sid'], f.what), {'meta': m}, case=c)
+            if tr['fresh'] is not None and tr['fresh'] != sm['_impl']:
+                return Failure('%s/aliasing/fresh-twin-differs' % sm['_clause'],
+                               'command %d of a program over several live objects: the lookup on series %d answers %s, an untouched twin holding the same '
+                               'samples answers %s  [op: %s]' % (i + 1, cm['sid'], sm['_impl'][:160], tr['fresh'][:160], sm['_line'][:240]), {'meta': m}, case=c)
+    if m.get('_ids') != m.get('_want_ids'):
+        return Failure('share/series-hold-one-axis-object', 'after the program the series hold the axis objects %s (position of the first registered object '
+                       'that IS the cached `.time`), every series must hold an object of its own: %s  [op: %s]'
+                       % (m.get('_ids'), m.get('_want_ids'), c.line[:300]), {'meta': m}, case=c)
+    return None
 
 # ------------------------------------------------------------------ generators
 def gen_uquery(rng, ax, array=False):
@@ -1816,8 +2248,13 @@ def gen_hist(rng, nmax):
                 elif ch['route'].startswith('derived'):
                     continue        # a refused operand makes a plain time array (one-shot `derive` cases, `born` arrays)
             steps.append({'chg': ch})
+    if rng.random() < 0.6:
+        for _ in range(rng.choice([1, 1, 2, 3])):
+            steps.append({'side': gen_side(rng, kind)})
     for _ in range(rng.randint(2, 4)):
         steps.append({'look': gen_hlook(rng, kind, cur)})
+        if rng.random() < 0.15:
+            steps.append({'side': gen_side(rng, kind)})
     looks = [i for i, st in enumerate(steps) if 'look' in st]
     if rng.random() < 0.3 and looks:
         # an earlier lookup is asked again at the end with the SAME query / epoch / tolerance objects
@@ -1946,6 +2383,8 @@ def cases(rng, tier, seed):
         add(gen_hist(rng, nmax))
     for _ in range(150 * scale):                      # axis + x, x - axis, … as new objects
         add(gen_derive(rng, 30))
+    for _ in range(220 * scale):                      # class L8: programs over several live objects (series sharing / not sharing axis objects)
+        add(gen_share(rng))
     out, skipped = [], 0
     for m in CORPUS + metas:
         c = run_case(dict(m))
